@@ -4,11 +4,14 @@ C18 (part 2) — model of `pkg/trait/electricpb/segmentpb`: `ActiveAt`, `Magnitu
 
 The definitions follow the Go code loop by loop.  A segment is `(magnitude, optional length)`:
 lengths are integer nanoseconds (`time.Duration`), an absent length is the Go `Length == nil`
-("infinite").  Magnitudes are integers: the Go field is a `float32`, integers of absolute value
-below 2^24 and all their sums/differences in that range are exact in `float32`, and the
-correspondence check only feeds such magnitudes.  Durations are unbounded integers (the harness
-stays far below 2^63 ns).  The `Shape` oneof is not modelled (it does not influence any magnitude or
-length; `Sum` ignores it by its own comment).
+("infinite").  Magnitudes are integers (numerators over a fixed power-of-two denominator): the Go field is
+a `float32`; `F32.lean` models the float32 additions of `Sum`/`SumMagnitude` (tied to Go's arithmetic by the
+driver) and `PropsFloat` proves that below 2^24 units nothing is rounded, so this exact model IS the float
+code there; the correspondence check feeds such magnitudes here and rounding ones to the float rendering.
+Durations are unbounded integers here; `Seg64.lean` repeats every duration computation with 64-bit
+wrap-around (what the driver runs) and `PropsInt64` relates the two.  The `Shape` oneof is looked at by `Cut`
+only (`Shape.lean`, `PropsShape`: it never influences a magnitude or length; `Sum` ignores it by its own
+comment).
 
 The *specification* the operations are compared with is `den`: a segment list read as a step
 function of time.  It is defined at the end of this file, independently of the operations.
